@@ -1,7 +1,7 @@
 (* Loop/Corr.v — correspondence cases for Loop/Model.v (used by the C06 check). *)
 From Coq Require Import List Bool NArith ZArith.
 From SF Require Import Base.Str Base.Dec Base.Corr Tags.Model Gather.Corr.
-From SF Require Export Gather.Model Loop.Model Loop.Net.
+From SF Require Export Gather.Model Loop.Model Loop.Net Loop.CombK.
 Import ListNotations.
 
 Inductive ccase :=
@@ -15,7 +15,10 @@ Inductive ccase :=
 | CCombStep (arr : list atok) (out : list atok) (fin : bool)
 (* CWLLoopConditionalStep fed tokens for which the condition evaluated to these booleans, then a termination token:
    tokens on the output port and on the skip port *)
-| CWhen (arr : list (tag * bool)) (outD outE : list atok).
+| CWhen (arr : list (tag * bool)) (outD outE : list atok)
+(* LoopCombinatorStep with k input ports fed (port, token) in this order: per output port the tokens put on it, and
+   whether run() returned *)
+| CCombK (k : nat) (arr : list (nat * atok)) (outs : list (list atok)) (fin : bool).
 
 Definition tag_eqb (a b : tag) : bool := list_eqb N.eqb a b.
 Definition atok_eqb (a b : atok) : bool :=
@@ -33,6 +36,11 @@ Definition check_case (c : ccase) : bool :=
   | CCombStep arr out fin =>
       let s := c_run (ninit unit tt []) arr in
       list_eqb atok_eqb (qB s) out && Bool.eqb (cterm s) fin
+  | CCombK k arr outs fin =>
+      let s := ck_run k arr in
+      list_eqb (list_eqb atok_eqb)
+               (map (fun j => map snd (filter (fun x => Nat.eqb (fst x) j) (kout s))) (seq 0 k)) outs
+      && Bool.eqb (kdone s) fin
   | CWhen arr outD outE =>
       let toks := map (fun p => AT (fst p)) arr ++ [ATerm] in
       let cont := fun t => existsb (fun p => tag_eqb (fst p) t && snd p) arr in
